@@ -272,3 +272,53 @@ def c11(prop, tier, seed):
               "operations" % D)
     R.assumptions = ["no mutation behind a live iterator (precondition)", "ASan/UBSan attached", "bounds: 5 elements"]
     return R.finish()
+
+
+# ------------------------------------------------------------------------------------------
+# C05 - map
+
+def map_canon(dup):
+    def canon(st):
+        m = st["m"]
+        d = m.get("__fn__", {}) if isinstance(m, dict) else {}
+        if isinstance(m, dict) and "__fn__" not in m:
+            d = m            # record-like print [a |-> 1]
+        it = st["it"]
+        cur = "0" if not it["on"] else ("x" if it["rm"] else it["cur"])
+        dead = [i + 1 for i, f in enumerate(st["fate"]) if f == "dead"]
+        allocs = 2 + (len(d) if dup else 0) + (1 if it["on"] else 0)
+        proj = "%s|%d|%s|%s|%d" % (",".join("%s=%d" % (k, d.get(k, 0)) for k in ("a", "b", "c")), len(d), cur,
+                                   vplib.ints(dead), allocs)
+        return vplib.ints(st["obs"]), proj
+    return canon
+
+
+@check("C05")
+def c05(prop, tier, seed):
+    R = Result(prop, tier, seed)
+    exe = vplib.build("drv_map", ["utils", "structs"], ["drv_map.c"])
+    quick = tier == "quick"
+    D = 5 if quick else 7
+    budget = 250000 if quick else 20000000
+    walks = 1000 if quick else 100000
+    tasks = []
+    flagsets = [("duk", 1, 1, 1), ("dfk", 1, 0, 1), ("dus", 1, 1, 0), ("nfs", 0, 0, 0)] if quick else \
+        [(a + b + c, int(a == "d"), int(b == "u"), int(c == "k")) for a in "dn" for b in "uf" for c in "ks"]
+    for suf, dtor, upd, dup in flagsets:
+        for km in (0, 1, 2, 3, 4):
+            if quick and km in (1, 3) and suf != "duk":
+                continue
+            tag = "MapAbs_%s" % suf
+            env = {"VP_DTOR": str(dtor), "VP_UPDATE": str(upd), "VP_DUP": str(dup), "VP_KEYMODE": str(km)}
+            tasks.append((lambda tag=tag, env=env, dup=dup, km=km:
+                          e1e2(R, "MapAbs.tla", tag + ".cfg", "%s.km%d" % (tag, km), map_canon(dup), exe, env, D, budget, walks,
+                               24, seed, workers=2)))
+    vplib.parallel(tasks, max_workers=8)
+    R.rule = ("programs = edge sequences of the dumped TLC graph of MapAbs.tla (3 keys x 3 values, flag combinations) replayed "
+              "with 5 key sets: plain, all keys in one home slot, and three sets homed at slots 254/255/0 so that clusters wrap "
+              "around the table end; all maximal paths of <= %d mutating steps with all queries at every node, edge cover, "
+              "random walks; iteration order is a library choice followed by observation; non-trivial = >= 2 keys present and "
+              "an entry removed during an iteration" % D)
+    R.assumptions = ["no mutation behind a live iterator except through it (precondition)", "ASan/UBSan + allocator ledger attached",
+                     "adversarial keys are searched with a copy of the public hash function (coverage aid only)"]
+    return R.finish()
